@@ -86,7 +86,7 @@ class CallGraph:
                 out.append(fi.mod.functions[f.id])
             elif f.id in fi.mod.imports:
                 tgt = repo._import_target(fi.mod, f.id)
-                if tgt and tgt[1] in tgt[0].functions:
+                if tgt and tgt[1] is not None and tgt[1] in tgt[0].functions:
                     out.append(tgt[0].functions[tgt[1]])
             cs = repo.classes().get(f.id, [])
             if len(cs) == 1:
@@ -114,6 +114,15 @@ class CallGraph:
                 if name in k.methods:
                     return [k.methods[name]]
             return out
+        # module.f()  (`from . import helpers` ... helpers.f())
+        if isinstance(recv, ast.Name) and recv.id in fi.mod.imports and recv.id not in repo.classes():
+            tgt = repo._import_target(fi.mod, recv.id)
+            if tgt and tgt[1] is None:
+                if name in tgt[0].functions:
+                    return [tgt[0].functions[name]]
+                if name in tgt[0].classes:
+                    m = repo.method(name, "__init__", required=False)
+                    return [m] if m else []
         # Cls.m()
         if isinstance(recv, ast.Name) and recv.id in repo.classes() and len(repo.classes()[recv.id]) == 1:
             m = repo.method(recv.id, name, required=False)
